@@ -129,81 +129,68 @@ def _r2(ck: Checker, prog: Program):
     from_d = sr.find_method("_from_dict")
     if to_d is None or from_d is None:
         raise AnalysisError("SeismicRecording3C._to_dict/_from_dict not found")
-    rets = [r for r in own_nodes(to_d.node) if isinstance(r, ast.Return)]
-    if len(rets) != 1:
-        raise AnalysisError("_to_dict: expected a single return")
-    d = rets[0].value
+    from ..pathtable import PathTable
+    R = lambda n: sp.Symbol(n, real=True)   # noqa: E731
+    SELF = R(to_d.params[0])
+    A = lambda a, o: sp.Function("attr_" + a)(o)   # noqa: E731
+    lw = [l for l in PathTable(prog, to_d.module, unroll=True, structured=True).leaves(to_d.node.body) if l.exit == "return"]
+    if len(lw) != 1 or getattr(getattr(lw[0].value, "func", None), "__name__", "") != "dict":
+        raise AnalysisError("_to_dict does not return a dict built in the method")
     written = {}
-    if isinstance(d, ast.Call) and call_name(d) == "dict":
-        written = {k.arg: k.value for k in d.keywords if k.arg}
-    elif isinstance(d, ast.Dict):
-        written = {k.value: v for k, v in zip(d.keys, d.values) if isinstance(k, ast.Constant)}
-    else:
-        raise AnalysisError("_to_dict does not return a dict display")
-    read = {}
-    for sub in own_nodes(from_d.node):
-        if isinstance(sub, ast.Subscript) and isinstance(sub.value, ast.Name) and sub.value.id == from_d.params[1] \
-                and isinstance(sub.slice, ast.Constant):
-            read.setdefault(sub.slice.value, []).append(sub)
-    if set(written) == set(read):
+    for a in lw[0].value.args:
+        nm = getattr(a.func, "__name__", "")
+        if nm.startswith("kv_"):
+            written[nm[3:]] = a.args[0]
+    DATA = R(from_d.params[1])
+    gi = sp.Function("getitem")
+    lr = [l for l in PathTable(prog, from_d.module, unroll=True, structured=True).leaves(from_d.node.body) if l.exit == "return"]
+    if len(lr) != 1:
+        raise AnalysisError("_from_dict: expected a single returning path")
+    rv = lr[0].value
+    read = set()
+    for a in sp.preorder_traversal(rv):
+        if getattr(a, "func", None) == gi and a.args[0] == DATA and a.args[1].is_Symbol and a.args[1].name.startswith("'"):
+            read.add(a.args[1].name.strip("'"))
+    if set(written) == read:
         ck.ok("C18.R2", to_d.qualname, f"keys {sorted(written)}", detail="same key set written and read")
     else:
         ck.violation("C18.R2", to_d.qualname, "key set",
                      f"_to_dict writes {sorted(written)} but _from_dict reads {sorted(read)}", loc=to_d.loc())
     # what is written under each key
-    self_name = to_d.params[0]
-    expect_w = {
-        "dt_in_seconds": lambda v: isinstance(v, ast.Attribute) and v.attr == "dt_in_seconds" and unparse(v).startswith(f"{self_name}."),
-        "degrees_from_north": lambda v: unparse(v) == f"{self_name}.degrees_from_north",
-        "meta": lambda v: unparse(v) == f"{self_name}.meta",
-    }
+    expect_w = {"degrees_from_north": [A("degrees_from_north", SELF)], "meta": [A("meta", SELF)],
+                "dt_in_seconds": [A("dt_in_seconds", A(c, SELF)) for c in ("ns", "ew", "vt")]}
     for comp in ("ns", "ew", "vt"):
-        expect_w[f"{comp}_amplitude"] = (lambda c: (lambda v: unparse(v) == f"{self_name}.{c}.amplitude.tolist()"))(comp)
-    for k, pred in expect_w.items():
+        expect_w[f"{comp}_amplitude"] = [sp.Function("tolist")(A("amplitude", A(comp, SELF)))]
+    for k, alts in expect_w.items():
         if k not in written:
             ck.violation("C18.R2", to_d.qualname, f"key {k}", f"`{k}` is not persisted", loc=to_d.loc())
-        elif pred(written[k]):
-            ck.ok("C18.R2", to_d.qualname, f"{k}={unparse(written[k])}")
+        elif written[k] in alts:
+            ck.ok("C18.R2", to_d.qualname, f"{k}={written[k]}")
         else:
-            ck.violation("C18.R2", to_d.qualname, f"key {k}", f"`{k}` persists `{unparse(written[k])}`", loc=to_d.loc(written[k]))
+            ck.violation("C18.R2", to_d.qualname, f"key {k}", f"`{k}` persists `{written[k]}`", loc=to_d.loc())
     # wiring in _from_dict
-    data = from_d.params[1]
-    comps = {}
-    for st in own_nodes(from_d.node):
-        if isinstance(st, ast.Assign) and isinstance(st.targets[0], ast.Name) and isinstance(st.value, ast.Call) \
-                and call_name(st.value) == "TimeSeries":
-            a = st.value.args
-            comps[st.targets[0].id] = (unparse(a[0]) if a else None, unparse(a[1]) if len(a) > 1 else unparse(kwarg(st.value, "dt_in_seconds")))
-    ret = [r for r in own_nodes(from_d.node) if isinstance(r, ast.Return)]
-    if len(ret) != 1 or not isinstance(ret[0].value, ast.Call):
-        raise AnalysisError("_from_dict: expected `return cls(...)`")
-    c = ret[0].value
-    rd = reaching(from_d)
-    order = []
-    for a in c.args[:3]:
-        if isinstance(a, ast.Name) and a.id in comps:
-            order.append(comps[a.id][0])
-        else:
-            order.append(unparse(a))
-    want = [f"{data}['ns_amplitude']", f"{data}['ew_amplitude']", f"{data}['vt_amplitude']"]
-    if order == want and all(v[1] == f"{data}['dt_in_seconds']" for v in comps.values()):
-        ck.ok("C18.R2", from_d.qualname, norm_key(c), detail="cls(ns, ew, vt) built from the matching stored arrays and time step")
+    key = lambda k: gi(DATA, sp.Symbol(f"'{k}'"))   # noqa: E731
+    TSf = sp.Function("TimeSeries")
+    want_args = [TSf(key(f"{c}_amplitude"), key("dt_in_seconds")) for c in ("ns", "ew", "vt")]
+    fname = getattr(getattr(rv, "func", None), "__name__", "")
+    args = list(rv.args) if fname in ("cls", "SeismicRecording3C") else []
+    rets_ = [r_ for r_ in own_nodes(from_d.node) if isinstance(r_, ast.Return)]
+    c = rets_[0].value if rets_ and isinstance(rets_[0].value, ast.Call) else None
+    if args[:3] == want_args:
+        ck.ok("C18.R2", from_d.qualname, "cls(ns, ew, vt) built from the matching stored arrays and time step", detail=str(rv)[:200])
     else:
-        ck.violation("C18.R2", from_d.qualname, norm_key(c), f"components are rebuilt from {order} with time steps {[v[1] for v in comps.values()]}",
-                     loc=from_d.loc(c))
-    for kw_name, key in (("degrees_from_north", "degrees_from_north"), ("meta", "meta")):
-        v = kwarg(c, kw_name)
-        src = None
-        if isinstance(v, ast.Name):
-            defs = rd.def_stmts(v.id, c)
-            if len(defs) == 1 and isinstance(defs[0], ast.Assign):
-                src = unparse(defs[0].value)
-        elif v is not None:
-            src = unparse(v)
-        if src == f"{data}['{key}']":
-            ck.ok("C18.R2", from_d.qualname, f"{kw_name} <- data['{key}']")
+        ck.violation("C18.R2", from_d.qualname, "component wiring", f"components are rebuilt as {args[:3]}; expected {want_args}", loc=from_d.loc())
+    # keyword arguments of the constructor call (names are dropped by the canonical form: use the call itself)
+    from ..resolve import Resolver, canon
+    RR = Resolver(prog, from_d, inline=False)
+    for kw_name, k in (("degrees_from_north", "degrees_from_north"), ("meta", "meta")):
+        v = kwarg(c, kw_name) if c is not None else None
+        got = canon(RR.value(v, rets_[0])) if v is not None else None
+        want_v = canon(RR.expect(f"{from_d.params[1]}['{k}']"))
+        if got is not None and got == want_v:
+            ck.ok("C18.R2", from_d.qualname, f"{kw_name} <- data['{k}']")
         else:
-            ck.violation("C18.R2", from_d.qualname, f"{kw_name} wiring", f"constructor argument `{kw_name}` receives `{src}`", loc=from_d.loc(c))
+            ck.violation("C18.R2", from_d.qualname, f"{kw_name} wiring", f"constructor argument `{kw_name}` receives `{got}`", loc=from_d.loc())
     # save / load
     save, load = sr.find_method("save"), sr.find_method("load")
     ok_save = any(call_name(x) == "dump" and x.args and isinstance(x.args[0], ast.Call) and call_name(x.args[0]) == "_to_dict"
